@@ -71,7 +71,8 @@ def emblRecs (wf : Bool) (c : Seq) : List Rec := (emRun wf {} (linesScan c)).2
 /-- `parseEmbl` in terms of the scanner with its real token limit (the unlimited `emblRecs` is what it
 returns on chunks without over-long lines: `parseEmbl_eq_short`, Lemmas/ScanMax.lean) -/
 theorem parseEmbl_eq (wf : Bool) (c : Seq) :
-    parseEmbl wf c = .ok (emRun wf {} (linesScanMax maxScanTok c)).2 := rfl
+    parseEmbl wf c = if scanErr maxScanTok c then .error .fatal
+      else .ok (emRun wf {} (linesScanMax maxScanTok c)).2 := rfl
 
 /-- the text ends with an end-of-record line: `\n//\n` or `\n//\r\n` -/
 def FlatEnd (a : Seq) : Prop := ∃ p, a = p ++ [10, 47, 47, 10] ∨ a = p ++ [10, 47, 47, 13, 10]
